@@ -10,6 +10,8 @@ import (
 	"time"
 
 	flyt "github.com/mark3labs/flyt"
+
+	"verif/harness/internal/scen"
 )
 
 // WaitCase: one retry-wait scenario.
@@ -138,6 +140,10 @@ func (w *waitRun) exec(ctx context.Context, item int) (any, error) {
 			err = fmt.Errorf("attempt %d of item %d: sub-operation cancelled: %w", a, item, context.Canceled)
 		case "retry-after":
 			err = fmt.Errorf("attempt %d of item %d: %w", a, item, retryAfterErr{time.Millisecond})
+		case "typed-nil":
+			err = (*scen.NilableErr)(nil) // a non-nil error interface holding a nil pointer: a failed attempt like any other
+		case "empty-aggregate":
+			err = &flyt.BatchError{}
 		}
 		if w.cs.ExecUs > 0 {
 			time.Sleep(time.Duration(w.cs.ExecUs) * time.Microsecond)
@@ -575,6 +581,13 @@ func runC20(c *Cfg) {
 	for _, w := range []time.Duration{20 * time.Millisecond, 40 * time.Millisecond} {
 		cases = append(cases, &WaitCase{Family: "lower-bound-batch-stop", Kind: "batch", WaitNs: int64(w), N: 3, K: 4, C: 2, Items: 2, Stop: true, Slow1Us: int(w / 2 / time.Microsecond)})
 		cases = append(cases, &WaitCase{Family: "lower-bound-batch-stop", Kind: "batch", WaitNs: int64(w), N: 4, K: 5, K0: 3, C: 3, Items: 3, Stop: true, Slow1Us: int(w / 3 / time.Microsecond)})
+	}
+	// failing attempts whose error is a typed nil / an empty aggregate: failed attempts like any other — the wait follows
+	for _, ek := range []string{"typed-nil", "empty-aggregate"} {
+		for _, kind := range []string{"struct", "func", "batch"} {
+			cases = append(cases, &WaitCase{Family: "lower-bound-odd-error-values", Kind: kind, WaitNs: int64(5 * time.Millisecond), N: 3, K: 3, C: 2, Items: 2, ErrKind: ek})
+			cases = append(cases, &WaitCase{Family: "lower-bound-odd-error-values", Kind: kind, WaitNs: int64(5 * time.Millisecond), N: 2, K: 3, C: 0, Items: 2, ErrKind: ek, FB: true})
+		}
 	}
 	// siblings whose waits begin a few hundred microseconds apart: each item's own wait is still a full w
 	for _, sp := range []int{150, 300, 450, 700} {
